@@ -90,6 +90,21 @@ PROPS = {
         "level_text": "Lean theorems C04_perm / C04_reject / table_ok over the cyclicGroups table regenerated from range.go on every run: for every n in 1..2^32+60 and every pair of draws the model iterator terminates and emits a permutation of 1..n; other sizes are rejected. Pratt certificates for all 32 rows are re-derived and kernel-checked each run. The algorithm model is tied to the code by differential runs of the real iterator.",
         "level_note": "Trusted: Lean kernel + Mathlib; sxfacts reads the table faithfully; math/big = Nat arithmetic; correspondence of the hand-written Next/constructor model is validated by sxdiff iter (differential, not proved).",
     },
+    "C08": {
+        "modules": ["SxVerif.Props.C08"],
+        "components": ["engine"],
+        "trusted_base": [
+            "modelled, not verified: Go channel / select / WaitGroup / context semantics as the transition system Model/Engine.lean (bounded FIFO with closed flag, send-on-closed and double close = panic, a select may take any ready case, parent cancel propagates to the derived ctx atomically); one step = one channel operation, call or timer event of one goroutine",
+            "the generator and the `requests` channel are abstracted to the list of requests still to be delivered (its own plumbing is C01/C13); `Scan` is an oracle with arbitrary latency (any interleaving); the rate limiter only delays `Scan` (rateLimitScanner.Scan = Take; delegate — tied by sxfacts); the flush timer branch of LogResults and zap's error sink are not modelled",
+            "stage descriptors regenerated by sxfacts/stages_engine.go from engine.go, result.go, logger.go, root.go, config.go and the command files (channel roles by declaration, guards by the enclosing select, which ctx by the call chain); Props/C08.stages_as_modelled decides that they are what the transition system encodes",
+            "Start's early-return branch (GenerateRequests fails: one buffered error, both channels closed, no goroutine) is not part of the transition system; it is covered by the descriptor `startEarly` and by harness cases `generr`",
+        ],
+        "assumptions": ["workers >= 1 (parseRawOptions refuses workers <= 0: generated fact workersValidated)",
+                        "no Ctrl-C during the run (cmdCtx = false); cancellation is C12",
+                        "C08_drain_partial: DrainedAtCancel — copier and logger empty the result path (<= 6*1000+4 of their own steps, C08_drain_steps) within the exit delay; wall-clock, measured by the harness at the default 300 ms with > 2000 queued records"],
+        "level_text": "Lean theorems over the interleaving semantics Model/Engine.lean (GenericEngine.Start + W workers + errc cap 100 + resultChan internalResults -> copier -> results + LogResults + startScanEngine controller/drain/main with a logical clock), by induction over Reachable, for every W >= 1, every request list, every Scan oracle and every schedule: C08_handoff (receive events = prefix of the stream), C08_scan_once / C08_put_once / C08_err_once (multiset conservation incl. what workers hold), C08_done_after_all (done closed => all W workers returned, stream exhausted, nothing in progress, errc closed first), C08_complete (probes ~ ok targets, Puts ~ detections, error sends ~ error entries + failures), C08_fifo (printed ++ in-flight = Puts, also after the controller's cancel), C08_err_fifo (logged ++ in-flight = sent on every path; all logged once the drain returned), C08_no_panic, C08_drain_partial + C08_drain_steps (everything printed if the result path was empty at cancel; that needs at most 6004 copier/logger steps, each enabled). The instance is tied to the source by generated stage descriptors (stages_as_modelled, decided) and by running the REAL NewScanEngine/GenericEngine/resultChan/LogResults/startScanEngine with a recording scanner (W in {1,2,7,100,1000}, > 2000 results, > 100 errors, random latencies, limiter on/off, real generator chain).",
+        "level_note": "Partial: 'everything detected is printed before exit' is proved under the named hypothesis DrainedAtCancel (C08_full is stated, not claimed). Trusted: Lean kernel; the channel/select/context semantics of the transition system (validated differentially: final multisets, FIFO order via a Put-order recorder, done-after-probes, concurrency <= W, exit not before done + delay); sxfacts for the descriptors.",
+    },
     "C20": {
         "modules": ["SxVerif.Props.C20"],
         "components": ["recv"],
